@@ -7,11 +7,13 @@ CONSTANTS
   Ext = 8
   ExtNs = {1, 2, 3, 6}
   Algo = "arange_int"
+  ExtFilter = TRUE
 CONSTRAINT Export
 INVARIANT ImplCrop
 INVARIANT LawCropContiguous
 INVARIANT LawCropClosedness
 INVARIANT ImplExtend
+INVARIANT ImplOpenEndExcluded
 INVARIANT LawExtendContains
 INVARIANT LawExtendExact
 INVARIANT LawExtendIsInterval
